@@ -117,7 +117,15 @@ where
     debug_assert!(xs.len() == ys.len(), "number of X and Y coordinates must be the same");
 
     let roots = poly_from_roots(xs);
-    let numerators: Vec<Vec<E>> = xs.iter().map(|&x| syn_div(&roots, 1, x)).collect();
+    // divide by (x - x_i); unlike syn_div(), division by a list of roots is also defined for x_i = 0
+    let numerators: Vec<Vec<E>> = xs
+        .iter()
+        .map(|&x| {
+            let mut numerator = roots.clone();
+            syn_div_roots_in_place(&mut numerator, &[x]);
+            numerator
+        })
+        .collect();
 
     let denominators: Vec<E> = numerators.iter().zip(xs).map(|(e, &x)| eval(e, x)).collect();
     let denominators = batch_inversion(&denominators);
